@@ -162,6 +162,10 @@ def render(prog, mode, perm):
                     rr = prog["rels"][ref]
                     cl = f"({', '.join(c for c, _ in rr['cols'])})" if rr["collist"] else ""
                     frm.append(f"({rel_sql(rr)}) AS {al}{cl}")
+                elif mode == "sources" and prog["rels"][ref]["collist"] and prog.get("perm", 0) % 2 == 0:
+                    # the column list sits on the REFERENCE to the source (x AS z(p, q)); the other half of the programs renames
+                    # inside the source text instead (see below)
+                    frm.append(f"n{ref} AS {al}({', '.join(c for c, _ in prog['rels'][ref]['cols'])})")
                 else:
                     frm.append(f"n{ref} AS {al}")
 
@@ -211,7 +215,7 @@ def render(prog, mode, perm):
     # sources: a column list cannot be expressed there, render it as aliases inside the source
     srcs = {}
     for (n, cl, s), r in zip(defs, prog["rels"]):
-        if r["collist"]:
+        if r["collist"] and prog.get("perm", 0) % 2 == 1:
             s = f"SELECT {', '.join(f'z.c{j} AS {c}' for j, (c, _) in enumerate(r['cols']))} FROM ({s}) AS z"
         srcs[n] = s
     return final, srcs
